@@ -7,7 +7,7 @@ import gen_lang
 import vlib
 import wire
 from props import c02, c09, c11, c12, c20
-from vlib import Case, lang_lines
+from vlib import Case, lang_lines, vmrun_lines
 
 # every case of this module is a direct operator / builtin / codec application whose size the oracle computes:
 # a "capacity overflow" panic is never excused here
@@ -57,6 +57,9 @@ def model_skip(c):
 def spec_override(c):
     # this property demands one thing of every case: no panic, abort or hang — except where the oracle itself
     # computed a request for more memory than the machine has (verdict `any`: the property's exclusion)
+    if c.spec.startswith("eq BCV-REJECTED"):
+        # op vmrun: the bytecode verifier (proved: accepted code never panics in the VM model) refused the real bytecode
+        return c.spec
     return "any" if c.spec == "any" and c.line.startswith("eval ") else "nopanic"
 
 
@@ -187,6 +190,10 @@ def cases(ctx):
     lines = lang_lines(ctx, srcs)
     for l, t, s in zip(lines, tags, srcs):
         out.append(Case(l, (t,), extra={"src": s}))
+    # translation validation (vm_safe): Bcv on the real bytecode of every program; the VM model (explicit panic sites) runs it
+    vl = vmrun_lines(ctx, srcs)
+    for l, t, s in zip(vl, tags, srcs):
+        out.append(Case(l, (t, "vm"), extra={"src": s}))
     nl = lang_lines(ctx, [src for _, src in NATIVE_RECURSION])
     for l, (key, src) in zip(nl, NATIVE_RECURSION):
         out.append(Case(l, ("native-recursion",), extra={"src": src, "known_key": key}))
